@@ -46,6 +46,18 @@ CHECKS = {
                 technique="deterministic simulation: synthetic_data under simulator-chosen (faithful and adversarial) RNG outcomes; chain-rule identity at the seam, structural rounding bound",
                 text="seeded exploration: random models with zero-probability cells, row counts 1..1e5 (1e6 thorough), both methods; the simulator decides every choice/shuffle outcome (faithful, lowest/highest-probability subsets, degenerate shuffles, all-records-in-rarest-cell). Row count, value ranges and zero support are checked on every run; sampling mode by the exact chain-rule identity over the recorded choice events; rounding mode by a rows-independent structural bound at one or two row counts.",
                 note="adversarial outcomes restricted to positive-probability ones; bound derivation in DESIGN.md Engine E; reference joint by sim/refmodel.py"),
+    "C13": dict(engine="est-hist", ref="3 (Engine C)",
+                technique="deterministic simulation: generated estimate-call histories with callback-interrupt faults, refinement against a fresh-estimator reference model",
+                text="seeded histories of estimate()/query operations on one estimator object (solvers MD/RDA/IG, varying measurement subsets, totals, iteration counts, callback interrupts injected inside the solver loop). Without warm start every returned model is compared with what a fresh estimator returns for that single call; every returned model's answers and parameters are digested at return time and re-checked bitwise after every later operation; caller inputs are compared bitwise before/after; with warm start, warm and cold runs must reach the same loss (escalated before reporting).",
+                note="eigsh start vector fixed by the harness; few iterations per call so that a leaked start point shows; totals kept consistent with the data; convergence clause uses the solver's own line search"),
+    "C08": dict(engine="est-hist", ref="3 (Engine C)",
+                technique="deterministic simulation: generated estimate-call histories (all solvers, iteration counts from 1, early exits, warm start, interrupts) with coherence invariants checked on every returned model",
+                text="every model returned along a seeded history is checked: stored marginals == belief_propagation(stored parameters); every answer (all cliques, full vector, random out-of-clique projections) finite, non-negative, sums to model.total and agrees with the full vector on shared attributes; estimate raises nothing.",
+                note="tolerance 1e-6 relative + 1e-8*total; known finding F8 (parameters beyond 1e9) carries its own signature"),
+    "C10": dict(engine="est-hist", ref="3 (Engine C)",
+                technique="deterministic simulation: generated estimate-call histories with structural zeros plus simulator-chosen RNG outcomes for synthetic records; zero-mass invariants after every step",
+                text="estimators configured with structural zeros on measured cliques, sub-cliques and unmeasured attribute groups are driven through seeded histories (three solvers, cold and warm start, interrupts); for every returned model every declared cell must carry <= 1e-50*total in in-clique and out-of-clique answers and the full vector, nothing is NaN, everything sums to total, and synthetic_data under adversarial SimRNG outcomes puts no record in a declared cell.",
+                note="1e-50 threshold because RDA/IG refit parameters through log(mu+1e-100) by design"),
     "C02": dict(engine="query-hist", ref="3 (Engine B)",
                 technique="deterministic simulation: generated query/cache/save-load histories with I/O fault injection, refinement against the explicit joint",
                 text="seeded histories of project / calculate_many_marginals / krondot / datavector / save+load on one model object (direct parameters or returned by estimate); after every operation the answer is compared with the explicit joint in the requested axis order; save/load goes through an in-memory file system that injects write errors, lost tails and read errors.",
